@@ -93,11 +93,18 @@ def run(chk):
             chk.violation("is_inside-raised", dict(kind=kind, vertices=Vp.tolist(), faces=F, error=st))
             continue
         check_batch(chk, p, pts, got, rng, "Polyhedron", Vp, F)
+        # the same closed surface with every face listed the other way round bounds the same solid: membership does not depend on the
+        # orientation convention (the winding rule tests the winding number against 0; proved orientation-free in Properties/C05.v)
+        got_r = None
+        st_r, p_r = C.excname(lambda: coxeter.shapes.Polyhedron(Vp, [np.array(list(f)[::-1]) for f in F]))
+        if st_r == "ok":
+            st_r, got_r = C.excname(lambda: np.asarray(p_r.is_inside(pts), bool))
+            got_r = got_r if st_r == "ok" else None      # (judged point by point below, off the boundary only)
         o = generic_apex(rng, Vp)
         i0 = len(cases)
         cases.append(C.encode_case("winding3", sc=C.flat(o) + C.flat(pts), qs=C.flat(Vp), idx=tl))
         cases.append(C.encode_case("dist2_mesh", sc=C.flat(pts), qs=C.flat(Vp), idx=tl))
-        meta.append(dict(cls="mesh", kind=kind, V=Vp, F=F, tl=tl, pts=pts, got=got, i0=i0, o=o))
+        meta.append(dict(cls="mesh", kind=kind, V=Vp, F=F, tl=tl, pts=pts, got=got, got_r=got_r, i0=i0, o=o))
 
     # ---- spheres / ellipsoids ----
     for _ in range(ncurv):
@@ -230,6 +237,10 @@ def judge_mesh(chk, m, k, code, cov, csum, d2):
     elif bool(code) != exact:
         chk.violation("model-vs-spec", dict(vertices=m["V"].tolist(), faces=m["F"], point=m["pts"][k].tolist(),
                                             what="winding model differs from covering number"), no_input=True)
+    if m.get("got_r") is not None and bool(m["got_r"][k]) != exact:
+        chk.violation("polyhedron-is_inside-orientation", dict(kind=m["kind"], vertices=m["V"].tolist(), faces=m["F"], point=m["pts"][k].tolist(),
+                                                              faces_reversed=bool(m["got_r"][k]), exact=exact,
+                                                              what="the same surface with every face reversed bounds the same solid"))
 
 
 def check_batch(chk, shape, pts, got, rng, name, V, F=None):
